@@ -1,34 +1,359 @@
 package main
 
 import (
-	"encoding/json"
+	"flag"
 	"fmt"
+	"go/ast"
+	"go/token"
+	"go/types"
 	"os"
+	"os/exec"
+	"path/filepath"
+	"sort"
+	"strings"
 
 	"golang.org/x/tools/go/packages"
 )
 
-func main() {
-	var ov struct{ Replace map[string]string }
-	b, _ := os.ReadFile(os.Args[1])
-	json.Unmarshal(b, &ov)
-	overlay := map[string][]byte{}
-	for k, v := range ov.Replace {
-		c, err := os.ReadFile(v)
-		if err != nil {
-			panic(err)
-		}
-		overlay[k] = c
+const repoMod = "github.com/grailbio/bigslice"
+
+var verifDir = "/verif"
+var repoDir = "/repo"
+
+func init() {
+	if d := os.Getenv("GVC_VERIF"); d != "" {
+		verifDir = d
 	}
-	cfg := &packages.Config{
-		Mode:    packages.NeedName | packages.NeedFiles | packages.NeedSyntax | packages.NeedTypes | packages.NeedTypesInfo | packages.NeedImports | packages.NeedDeps,
-		Dir:     "/repo",
-		Overlay: overlay,
-		Env:     append(os.Environ(), "GODEBUG=goindex=0", "GOFLAGS=-mod=mod", "GOPROXY=off"),
-	}
-	pkgs, err := packages.Load(cfg, os.Args[2:]...)
-	fmt.Println(err)
-	for _, p := range pkgs {
-		fmt.Println(p.PkgPath, len(p.Syntax), p.Errors)
+	if d := os.Getenv("GVC_REPO"); d != "" {
+		repoDir = d
 	}
 }
+
+// makeOverlay writes the build overlay into dir and returns go/packages' overlay map and the ov.json path.
+func makeOverlay(dir string) (map[string][]byte, string, error) {
+	cmd := exec.Command(filepath.Join(verifDir, "overlay/mkoverlay.sh"), dir, repoDir)
+	cmd.Env = append(os.Environ(), "GOFLAGS=-mod=mod", "GOPROXY=off")
+	if out, err := cmd.CombinedOutput(); err != nil {
+		return nil, "", fmt.Errorf("mkoverlay: %v: %s", err, out)
+	}
+	ovPath := filepath.Join(dir, "ov.json")
+	m, err := readOverlay(ovPath)
+	return m, ovPath, err
+}
+
+func loadPackages(patterns []string, overlay map[string][]byte) ([]*packages.Package, error) {
+	cfg := &packages.Config{
+		Mode:    packages.NeedName | packages.NeedFiles | packages.NeedSyntax | packages.NeedTypes | packages.NeedTypesInfo | packages.NeedImports | packages.NeedDeps,
+		Dir:     repoDir,
+		Overlay: overlay,
+		Env:     append(os.Environ(), "GODEBUG=goindex=0", "GOFLAGS=-mod=mod", "GOPROXY=off", "GOSUMDB=off", "GOTOOLCHAIN=local"),
+	}
+	return packages.Load(cfg, patterns...)
+}
+
+func newVerifier(pkgs []*packages.Package) *Verifier {
+	v := &Verifier{Pkgs: map[string]*packages.Package{}, PkgByName: map[string]*packages.Package{}, W: newWorld(), CS: newContractSet(),
+		Units: map[string]*Unit{}, ghostVars: map[string]*SpecDecl{}, ghostFlds: map[string]*SpecDecl{}, missing: map[string]int{}}
+	var walk func(p *packages.Package)
+	walk = func(p *packages.Package) {
+		if _, ok := v.Pkgs[p.PkgPath]; ok {
+			return
+		}
+		v.Pkgs[p.PkgPath] = p
+		if old, ok := v.PkgByName[p.Name]; !ok || (strings.HasPrefix(p.PkgPath, repoMod) && !strings.HasPrefix(old.PkgPath, repoMod)) || (p.PkgPath == "github.com/grailbio/base/errors") {
+			v.PkgByName[p.Name] = p
+		}
+		if p.Fset != nil {
+			v.Fset = p.Fset
+		}
+		for _, ip := range p.Imports {
+			walk(ip)
+		}
+	}
+	for _, p := range pkgs {
+		walk(p)
+	}
+	// contracts: trusted first, then per-package files from the repo
+	tf, _ := filepath.Glob(filepath.Join(verifDir, "trusted/*.contracts"))
+	sort.Strings(tf)
+	for _, f := range tf {
+		v.CS.parseFile(f, repoMod)
+	}
+	var paths []string
+	for path := range v.Pkgs {
+		paths = append(paths, path)
+	}
+	sort.Strings(paths)
+	for _, path := range paths {
+		if !strings.HasPrefix(path, repoMod) {
+			continue
+		}
+		dir := filepath.Join(repoDir, strings.TrimPrefix(strings.TrimPrefix(path, repoMod), "/"))
+		f := filepath.Join(dir, "zz_verif_contracts.go")
+		if _, err := os.Stat(f); err == nil {
+			v.CS.parseFile(f, path)
+		}
+	}
+	for _, d := range v.CS.Decls {
+		switch d.Kind {
+		case "ghostvar":
+			v.ghostVars[d.Name] = d
+		case "ghostfield":
+			v.ghostFlds[d.Name] = d
+		}
+	}
+	// units
+	for _, path := range paths {
+		if !strings.HasPrefix(path, repoMod) {
+			continue
+		}
+		p := v.Pkgs[path]
+		for _, f := range p.Syntax {
+			initN := 0
+			for _, d := range f.Decls {
+				fd, ok := d.(*ast.FuncDecl)
+				if !ok || fd.Body == nil {
+					continue
+				}
+				obj, _ := p.TypesInfo.Defs[fd.Name].(*types.Func)
+				if obj == nil {
+					continue
+				}
+				key := funcKey(obj)
+				if fd.Name.Name == "init" && fd.Recv == nil {
+					initN++
+					base := filepath.Base(p.Fset.Position(fd.Pos()).Filename)
+					key = shortPkg(path) + ".init@" + strings.TrimSuffix(base, ".go")
+					if initN > 1 {
+						key += fmt.Sprint(initN)
+					}
+				}
+				u := &Unit{Key: key, Pkg: p, Decl: fd, Body: fd.Body, FType: fd.Type, Sig: obj.Type().(*types.Signature), Obj: obj}
+				ast.Inspect(fd.Body, func(n ast.Node) bool {
+					if l, ok := n.(*ast.FuncLit); ok {
+						u.Lits = append(u.Lits, l)
+					}
+					return true
+				})
+				v.Units[key] = u
+				for i, l := range u.Lits {
+					lk := fmt.Sprintf("%s$%d", key, i+1)
+					sig, _ := p.TypesInfo.TypeOf(l).(*types.Signature)
+					v.Units[lk] = &Unit{Key: lk, Pkg: p, Lit: l, Outer: u, Body: l.Body, FType: l.Type, Sig: sig}
+				}
+			}
+		}
+	}
+	for k, c := range v.CS.Funcs {
+		if u, ok := v.Units[k]; ok {
+			u.Contract = c
+		}
+	}
+	return v
+}
+
+// evalAxioms adds the axioms of the contract set to the world (once).
+func (v *Verifier) evalAxioms() []string {
+	t := v.newTr(&Unit{Key: "axioms"})
+	t.cur = t.newBlock()
+	t.cur.Env = Env{}
+	t.root = t.cur
+	for _, d := range v.CS.Decls {
+		if d.Kind != "axiom" {
+			continue
+		}
+		f := v.closedFormula(t, d)
+		v.W.addAxiom(d.Label, f.S)
+	}
+	v.axiomVars = t.allVars
+	return t.errs
+}
+
+// closedFormula evaluates a lemma/axiom body, universally closing its declared variables.
+func (v *Verifier) closedFormula(t *tr, d *SpecDecl) Term {
+	pkg := v.Pkgs[d.PkgPath]
+	sc := &specCtx{pkg: pkg, vars: map[string]Term{}, cur: Env{}, old: Env{}, qn: t.qn(), where: d.Where}
+	var bvs []Term
+	var invs []Term
+	for _, p := range d.Vars {
+		T := t.resolveType(p.Type, pkg)
+		if T == nil {
+			t.specErr(sc, "cannot resolve type of variable %s", p.Name)
+			continue
+		}
+		bv := Term{S: sym(p.Name + "$v"), Sort: v.W.sortOf(T), T: T}
+		sc.vars[p.Name] = bv
+		bvs = append(bvs, bv)
+		invs = append(invs, t.typeInv(bv, T, Env{}))
+	}
+	body := t.spec(d.Expr, sc)
+	return forallT(bvs, implies(and(invs...), body))
+}
+
+// lemmaUnit produces the obligation of a lemma: its closed formula must be valid given the axioms.
+func (v *Verifier) lemmaResult(d *SpecDecl) *UnitResult {
+	u := &Unit{Key: "lemma:" + d.Label}
+	t := v.newTr(u)
+	t.cur = t.newBlock()
+	t.cur.Env = Env{}
+	t.root = t.cur
+	f := v.closedFormula(t, d)
+	ob := &Obligation{Name: "lemma/" + d.Label, Kind: "lemma", Desc: d.Text, Block: t.cur, Index: 0, Unit: u.Key, Pos: d.Where}
+	t.cur.Stmts = append(t.cur.Stmts, PStmt{Assert: true, F: f.S, Ob: ob})
+	return &UnitResult{Unit: u, Obls: []*Obligation{ob}, Errs: t.errs, tr: t}
+}
+
+func (u *Unit) posOK() bool { return u.Body != nil }
+
+func main() {
+	if len(os.Args) < 2 {
+		fmt.Fprintln(os.Stderr, "usage: gvc verify|check ...")
+		os.Exit(2)
+	}
+	switch os.Args[1] {
+	case "verify":
+		cmdVerify(os.Args[2:])
+	case "check":
+		cmdCheck(os.Args[2:])
+	default:
+		fmt.Fprintln(os.Stderr, "unknown command", os.Args[1])
+		os.Exit(2)
+	}
+}
+
+// cmdVerify: developer tool — verify the named units and print the obligation table.
+func cmdVerify(args []string) {
+	fs := flag.NewFlagSet("verify", flag.ExitOnError)
+	pk := fs.String("pkgs", ".", "comma separated package patterns (relative to the repo)")
+	un := fs.String("units", "", "comma separated unit keys (or prefix*)")
+	lem := fs.String("lemmas", "", "comma separated lemma labels (or *)")
+	timeout := fs.Int("t", 10, "solver timeout (s)")
+	dump := fs.String("dump", "", "directory to dump queries of failed obligations")
+	nocache := fs.Bool("nocache", false, "ignore the verdict cache")
+	debug := fs.Bool("debug", false, "panic on internal errors")
+	verbose := fs.Bool("v", false, "print every obligation")
+	fs.Parse(args)
+	useCache = !*nocache
+	os_debug = *debug
+	tmp, _ := os.MkdirTemp("", "gvcov")
+	defer os.RemoveAll(tmp)
+	ov, _, err := makeOverlay(tmp)
+	if err != nil {
+		fmt.Fprintln(os.Stderr, err)
+		os.Exit(2)
+	}
+	pkgs, err := loadPackages(strings.Split(*pk, ","), ov)
+	if err != nil {
+		fmt.Fprintln(os.Stderr, err)
+		os.Exit(2)
+	}
+	for _, p := range pkgs {
+		for _, e := range p.Errors {
+			fmt.Fprintln(os.Stderr, "load:", e)
+		}
+	}
+	v := newVerifier(pkgs)
+	for _, e := range v.CS.Errs {
+		fmt.Println("CONTRACT-ERROR", e)
+	}
+	for _, e := range v.evalAxioms() {
+		fmt.Println("AXIOM-ERROR", e)
+	}
+	var results []*UnitResult
+	keys := v.matchUnits(strings.Split(*un, ","))
+	for _, k := range keys {
+		results = append(results, v.generate(v.Units[k]))
+	}
+	for _, d := range v.CS.Decls {
+		if d.Kind == "lemma" && matchAny(d.Label, strings.Split(*lem, ",")) {
+			results = append(results, v.lemmaResult(d))
+		}
+	}
+	solveAll(results, v.W.prelude, *timeout, 16, false)
+	bad := 0
+	for _, r := range results {
+		for _, e := range r.Errs {
+			fmt.Println("ERROR", e)
+			bad++
+		}
+		for _, ob := range r.Obls {
+			ok := ob.Verdict == "unsat"
+			if ob.Cover {
+				ok = ob.Verdict != "unsat"
+			}
+			if !ok {
+				bad++
+			}
+			if *verbose || !ok {
+				st := "ok  "
+				if !ok {
+					st = "FAIL"
+				}
+				fmt.Printf("%s %-8s %-10s %6.2fs %s  [%s] %s\n", st, ob.Verdict, ob.Solver, ob.Time, ob.Name, ob.Pos, ob.Desc)
+				if !ok && ob.Model != "" {
+					fmt.Println("     ", strings.ReplaceAll(ob.Model, "\n", "\n      "))
+				}
+			}
+			if !ok && *dump != "" {
+				os.MkdirAll(*dump, 0o755)
+				q := ob.Query
+				if q == "" {
+					q = r.buildQuery(ob, v.W.prelude(), true)
+				}
+				os.WriteFile(filepath.Join(*dump, strings.NewReplacer("/", "_", "*", "", "(", "", ")", "").Replace(ob.Name)+".smt2"), []byte(q), 0o644)
+			}
+		}
+	}
+	n := 0
+	for _, r := range results {
+		n += len(r.Obls)
+	}
+	fmt.Printf("units=%d obligations=%d failed=%d\n", len(results), n, bad)
+	for k, c := range v.missing {
+		fmt.Printf("MISSING-CONTRACT %s (%d call sites)\n", k, c)
+	}
+	for _, n := range v.Notes {
+		fmt.Println("NOTE", n)
+	}
+	if bad > 0 {
+		os.Exit(1)
+	}
+}
+
+func matchAny(s string, pats []string) bool {
+	for _, p := range pats {
+		p = strings.TrimSpace(p)
+		if p == "" {
+			continue
+		}
+		if p == "*" || p == s {
+			return true
+		}
+		if strings.HasSuffix(p, "*") && strings.HasPrefix(s, strings.TrimSuffix(p, "*")) {
+			return true
+		}
+	}
+	return false
+}
+
+func (v *Verifier) matchUnits(pats []string) []string {
+	var keys []string
+	for k := range v.Units {
+		if matchAny(k, pats) {
+			keys = append(keys, k)
+		}
+	}
+	sort.Strings(keys)
+	for _, p := range pats {
+		p = strings.TrimSpace(p)
+		if p == "" || strings.HasSuffix(p, "*") {
+			continue
+		}
+		if _, ok := v.Units[p]; !ok {
+			fmt.Println("ERROR no such unit:", p)
+		}
+	}
+	return keys
+}
+
+var _ = token.NoPos
